@@ -44,3 +44,35 @@ def install_proxy_aliases():
         c = getattr(B, name, None)
         if c is not None and py in table:
             table.setdefault(c, table[py])
+
+
+def _proxy_to_py():
+    import crosshair.libimpl.builtinslib as B
+
+    out = {}
+    for base, py in ((B.SymbolicBool, bool), (B.SymbolicInt, int), (B.SymbolicFloat, float), (B.AnySymbolicStr, str)):
+        for c in _all_subclasses(base):
+            out[c] = py
+    return out
+
+
+def install_any_method_stub():
+    """serialization.methods.AnyMethod dispatches on `obj.__class__`, which is the proxy
+    class for a symbolic value.  The *factory argument* of every AnyMethod created from now
+    on is wrapped so that a proxy class is looked up as the Python type it stands for;
+    AnyMethod.serialize itself stays the code of /repo."""
+    from apischema.serialization import methods as M
+
+    if getattr(M.AnyMethod, "_vf_wrapped", False):
+        return
+    table = _proxy_to_py()
+    orig_init = M.AnyMethod.__init__
+
+    def init(self, factory):
+        def wrapped(cls):
+            return factory(table.get(cls, cls))
+
+        orig_init(self, wrapped)
+
+    M.AnyMethod.__init__ = init
+    M.AnyMethod._vf_wrapped = True
